@@ -28,8 +28,11 @@ Coverage map (clause of the property -> stream that reaches it; "via" = alternat
   operands of update .................... BQM of either vartype as float64 / float32 / object storage or handed over as its .spin /
                                           .binary view (QuadraticModel.update then takes its pure-Python path), QM operand for a QM
   QM.add_variables_from_model ........... per variable (variables=[v], any operand: QM with INTEGER / REAL bounds, BQM) or a whole BQM
-Not reached (no Coq op for them yet): normalize, add_linear_equality/inequality_constraint,
-fix_variables with more than one entry, energies-only paths.
+  composite calls ....................... fix_variables with several entries, normalize (one or two ranges, ignored sets, ignore_offset;
+                                          ranges chosen at run time so that the factor is a power of two), add_linear_equality_constraint:
+                                          the call is made on the model, its documented primitive sequence on a deep copy supplies the
+                                          intermediate states, and the model's final dump must be the one the Coq model reaches
+Not reached: add_linear_inequality_constraint (generates slack labels; C16), energies-only paths.
 """
 import copy
 import warnings
@@ -203,12 +206,13 @@ def gen_case(rng, tier):
                ("add_linear_from", 3), ("add_quadratic_from", 4), ("lin_array", 1), ("dense", 3), ("remove_variable", 5),
                ("remove_variables_from", 2), ("remove_interaction", 5), ("remove_interactions_from", 2), ("contract", 4),
                ("flip", 5), ("relabel", 7), ("relabel_ints", 2), ("scale", 4), ("update", 4), ("set_offset", 3),
-               ("resize", 2), ("clear", 1), ("change_vartype", 5), ("fix", 3), ("capture", 4)]
+               ("resize", 2), ("clear", 1), ("change_vartype", 5), ("fix", 3), ("capture", 4),
+               ("fix_many", 2), ("normalize", 2), ("eq_constraint", 2)]
     QM_OPS = [("q_add_variable", 8), ("add_linear", 6), ("q_add_linear_dflt", 4), ("q_add_linear_from_dflt", 4), ("set_linear", 4), ("add_quadratic", 10),
               ("set_quadratic", 6), ("add_linear_from", 2), ("add_quadratic_from", 3), ("q_add_variables_from", 2), ("q_add_vars_from_model", 6),
               ("remove_variable", 5), ("remove_interaction", 5), ("flip", 4), ("relabel", 6), ("relabel_ints", 2),
               ("scale", 3), ("update", 5), ("set_offset", 2), ("clear", 1), ("q_change_vartype", 5), ("fix", 3),
-              ("q_set_lb", 3), ("q_set_ub", 3)]
+              ("q_set_lb", 3), ("q_set_ub", 3), ("fix_many", 1)]
     table = BQM_OPS if kind == "bqm" else QM_OPS
     names = [n for n, _ in table]
     weights = [w for _, w in table]
@@ -354,6 +358,37 @@ def gen_case(rng, tier):
         elif name == "fix":
             v = lab(0.9); drop(v)
             op = [name, v, str(rng.choice([0, 1, -1, 2, Fraction(1, 2)]))]
+        elif name == "fix_many":
+            # fix_variables with several entries: a loop of fix_variable calls (dict or pairs argument)
+            vs = []
+            for _k in range(rng.randint(2, 3)):
+                v = lab(0.95)
+                if all(lkey(dec_label(v)) != lkey(dec_label(w)) for w in vs):
+                    vs.append(v)
+            for v in vs:
+                drop(v)
+            op = [name, [[v, str(rng.choice([0, 1, -1, 2, Fraction(1, 2)]))] for v in vs], rng.choice(["dict", "pairs"])]
+            h = "base"
+        elif name == "normalize":
+            # normalize(bias_range[, quadratic_range], ignored ..., ignore_offset): the ranges are chosen when the case runs as
+            # (largest non-ignored |bias|) * 2**j so that the scale factor is a power of two
+            op = [name, rng.choice([0, 1, -1, 2, -2]), rng.choice([None, None, 0, 1, -1]),
+                  [lab(0.9) for _ in range(rng.randint(0, 1))] if rng.random() < 0.3 else [],
+                  [list(two(0.95)) for _ in range(rng.randint(0, 1))] if rng.random() < 0.3 else [], rng.random() < 0.3]
+            h = "base"
+        elif name == "eq_constraint":
+            # add_linear_equality_constraint(terms, lagrange_multiplier, constant) with distinct variables, non-zero factors
+            vs = []
+            for _k in range(rng.randint(1, 3)):
+                v = lab(0.7)
+                if all(lkey(dec_label(v)) != lkey(dec_label(w)) for w in vs):
+                    vs.append(v)
+            for v in vs:
+                note(v)
+            nz = [1, -1, 2, -2, Fraction(1, 2), 3]
+            op = [name, [[v, str(rng.choice(nz))] for v in vs], str(rng.choice([1, 2, Fraction(1, 2), -1])),
+                  str(rng.choice([0, 1, -1, 2, Fraction(1, 2)]))]
+            h = "base"
         elif name == "q_add_variable":
             vt = rng.choice(['BINARY', 'SPIN', 'INTEGER', 'INTEGER', 'REAL'])
             v = lab(0.25); note(v)
@@ -1003,6 +1038,112 @@ def run_op(t, hname, op, T, avoid, form=(), via=None):
     return coq, hterm, exc
 
 
+COMPOSITE = {"fix_many", "normalize", "eq_constraint"}
+
+
+def expand_composite(m, op, T):
+    """-> (list of (Coq op, function applying the primitive to a model), function applying the composite call).
+    The primitives are the documented meaning of the composite call, in the order its loop makes them."""
+    name = op[0]
+    N = lambda l: cnat(T.idx(l))
+    if name == "fix_many":
+        items = [(dec_label(v), F(a)) for v, a in op[1]]
+        prims = [(f"(OFix {N(v)} {cq(a)})", (lambda mm, v=v, a=a: mm.fix_variable(v, float(a)))) for v, a in items]
+        if op[2] == "dict":
+            comp = lambda mm: mm.fix_variables({v: float(a) for v, a in items})
+        else:
+            comp = lambda mm: mm.fix_variables((v, float(a)) for v, a in items)
+        return prims, comp
+    if name == "normalize":
+        j, jq, iv, ii, io = op[1], op[2], [dec_label(v) for v in op[3]], [(dec_label(u), dec_label(v)) for u, v in op[4]], bool(op[5])
+        ivk = set(map(lkey, iv))
+        iik = set(frozenset((lkey(u), lkey(v))) for u, v in ii)
+        ml = max([abs(F(b)) for v, b in m.linear.items() if lkey(v) not in ivk] + [Fraction(0)])
+        mq = max([abs(F(b)) for (u, v), b in m.quadratic.items() if frozenset((lkey(u), lkey(v))) not in iik] + [Fraction(0)])
+        big = max(ml, mq)
+        if big == 0:
+            k = Fraction(1)
+            kwargs = {"bias_range": 1.0}
+        elif jq is None:
+            k = Fraction(2) ** j
+            kwargs = {"bias_range": float(big * k)}
+        else:
+            # separate ranges: linear biases fit ml * 2**j, quadratic ones mq * 2**jq; the smaller factor wins
+            cands = ([Fraction(2) ** j] if ml else []) + ([Fraction(2) ** jq] if mq else [])
+            k = min(cands)
+            kwargs = {"bias_range": float(ml * Fraction(2) ** j) if ml else 1.0,
+                      "quadratic_range": float(mq * Fraction(2) ** jq) if mq else 1.0}
+        coq = (f"(OScale {cq(k)} {clist([N(v) for v in iv])} {clist([cpair(N(u), N(v)) for u, v in ii])} {cbool(io)})")
+        prim = lambda mm: mm.scale(float(k), ignored_variables=set(iv), ignored_interactions=set(ii), ignore_offset=io)
+
+        def comp(mm):
+            got = mm.normalize(ignored_variables=list(iv) if iv else None, ignored_interactions=list(ii) if ii else None,
+                               ignore_offset=io, **kwargs)
+            if got is not None and F(got) != k:
+                raise AssertionError(f"normalize({kwargs}) returned the scale factor {got}, expected {k}")
+        return [(coq, prim)], comp
+    if name == "eq_constraint":
+        terms = [(dec_label(v), F(a)) for v, a in op[1]]
+        lam, c = F(op[2]), F(op[3])
+        spin = m.vartype is Vartype.SPIN
+        prims = []
+
+        def add_off(delta):
+            # `offset += delta` as an absolute assignment computed on the model the primitive is applied to
+            return ("OFFSET", delta)
+        for i, (u, a) in enumerate(terms):
+            for jx in range(i, len(terms)):
+                v, b = terms[jx]
+                if i == jx:
+                    if spin:
+                        prims.append((f"(OAddLinear {N(u)} {cq(2 * lam * a * c)})", (lambda mm, u=u, x=2 * lam * a * c: mm.add_linear(u, float(x)))))
+                        prims.append(add_off(lam * a * a))
+                    else:
+                        prims.append((f"(OAddLinear {N(u)} {cq(lam * a * (2 * c + a))})",
+                                      (lambda mm, u=u, x=lam * a * (2 * c + a): mm.add_linear(u, float(x)))))
+                else:
+                    prims.append((f"(OAddQuadratic {N(u)} {N(v)} {cq(2 * lam * a * b)})",
+                                  (lambda mm, u=u, v=v, x=2 * lam * a * b: mm.add_quadratic(u, v, float(x)))))
+        prims.append(add_off(lam * c * c))
+        comp = lambda mm: mm.add_linear_equality_constraint([(v, float(a)) for v, a in terms], float(lam), float(c))
+        return prims, comp
+    raise RuntimeError(name)
+
+
+def run_composite(t, op, T):
+    """the composite call on the model, its documented primitive sequence on a deep copy.
+    -> (intermediate [(Coq op, dump)], (Coq op of the last primitive, exception of the composite call)) or None"""
+    prims, comp = expand_composite(t.m, op, T)
+    clone = copy.deepcopy(t.m)
+    seq = []
+    exc = None
+    for pr in prims:
+        if pr[0] == "OFFSET":
+            new = F(clone.offset) + pr[1]
+            coq, fn = f"(OSetOffset {cq(new)})", (lambda mm, x=new: setattr(mm, "offset", float(x)))
+        else:
+            coq, fn = pr
+        try:
+            fn(clone)
+        except Exception as e:   # noqa
+            exc = e
+        seq.append((coq, observe(clone)[0]))
+        if exc is not None:
+            break
+    rexc = None
+    try:
+        comp(t.m)
+    except AssertionError:
+        raise
+    except Exception as e:   # noqa
+        rexc = e
+    if outcome_term(rexc) != outcome_term(exc):
+        raise AssertionError(f"{op[0]} ended with {outcome_term(rexc)} ({rexc!r}) but its primitive sequence with {outcome_term(exc)} ({exc!r})")
+    if not seq:
+        return None
+    return seq[:-1], (seq[-1][0], rexc)
+
+
 def outcome_term(exc):
     if exc is None:
         return "Ok"
@@ -1034,18 +1175,30 @@ def run_case(c):
                     t.stale = t.m.spin if op[1] == "spin" else t.m.binary
             continue
         recs = []
+        pres = {}
+        skip = False
         for t in targets:
             try:
-                coq, hterm, exc = run_op(t, h, op, T, avoid, st.get("form") or (), st.get("via"))
+                if name in COMPOSITE:
+                    rc = run_composite(t, op, T)
+                    if rc is None:
+                        skip = True
+                        break
+                    pres[t.name], (coq, exc) = rc
+                    hterm = "Direct"
+                else:
+                    coq, hterm, exc = run_op(t, h, op, T, avoid, st.get("form") or (), st.get("via"))
             except AssertionError as e:
                 return {"py_fail": f"[{t.name}] {name}: {e}", "features": {"kind": kind, "op": name, "target": t.name}}
             d, fail = observe(t.m, not avoid)
             recs.append((t, coq, hterm, exc, d, fail))
+        if skip:
+            continue
         # float exactness guard: stop the history before a value needs more bits than the narrowest dtype keeps exactly
         wide = False
         for t, coq, hterm, exc, d, fail in recs:
             lim = F32_BITS if t.name == "f32" else F64_BITS
-            if width(d) > lim:
+            if width(d) > lim or any(width(dd) > lim for _c, dd in pres.get(t.name, [])):
                 wide = True
         if wide:
             feats["cut_for_precision"] = True
@@ -1057,6 +1210,9 @@ def run_case(c):
                 py_fail = f"[{t.name}] after step {done} ({name} via {h}): {fail}"
                 feats.update({"op": name, "target": t.name, "via": h})
             out = outcome_term(exc)
+            for pcoq, pd in pres.get(t.name, []):
+                # primitives of a composite call: intermediate states as its documented meaning reaches them (on a deep copy)
+                t.steps.append(f"(mkStep Direct {pcoq} Ok {coq_dump(pd, T)})")
             t.steps.append(f"(mkStep {hterm} {coq} {out} {coq_dump(d, T)})")
             t.prev = d
             if exc is None:
